@@ -21,7 +21,7 @@ PROP = dict(
          "minmax: >= 4 views incl. 'standard'; api: bits in >= 2 views and a query range cutting through the stored timestamps.",
     assumptions=["view names are decoded by the harness's own digit parser (not time.Parse layouts)",
                  "ranges are aligned to the quantum's finest unit (property statement); from and to are both explicit",
-                 "API level: single node, timestamps 2017-2023 at whole minutes"],
+                 "API level: the server process runs with a non-UTC local zone (-11h, -3h30, +5h30 or +13h by shard seed) and a third of the ranges are given as unix integers; single node, timestamps 2017-2023 at whole minutes"],
     tags=["gt"],
     units=[
         U("window", ".", "^TestVerifC18_RangeWindow$", 0, 0, sq=4, sth=12, rapid=False),
